@@ -129,8 +129,33 @@ func (rw *rewriter) rewriteFile() {
 			if se.Sel.Name == "AfterFunc" {
 				id.Name = "simrt"
 				rw.used = true
+				if *flagPrefix != "" {
+					// harness timers (socket deadlines of raw peers and the like) are not
+					// instants worth aiming stalls at
+					se.Sel.Name = "AfterFuncQuiet"
+				}
 			}
 		}
+		return true
+	}, nil)
+
+	// (*time.Timer).Reset -> simrt.TimerReset: the new expiry becomes a registered instant
+	// (targeted stalls can then land a goroutine just past a timer that is re-armed, not
+	// only one that is created)
+	astutil.Apply(rw.file, func(c *astutil.Cursor) bool {
+		ce, ok := c.Node().(*ast.CallExpr)
+		if !ok || len(ce.Args) != 1 {
+			return true
+		}
+		se, ok := ce.Fun.(*ast.SelectorExpr)
+		if !ok || se.Sel.Name != "Reset" {
+			return true
+		}
+		t := info.TypeOf(se.X)
+		if t == nil || t.String() != "*time.Timer" {
+			return true
+		}
+		c.Replace(rw.simcall("TimerReset", se.X, ce.Args[0]))
 		return true
 	}, nil)
 
